@@ -48,9 +48,7 @@ theorem C05_oracle_ext (ρ₁ ρ₂ : Oracle σ) (hu : ∀ x, ρ₁.u x = ρ₂.
     new time, process the events in order, then one signal round. -/
 theorem C05_order_call (es : List TEvent) (t : Int) (s : Fw σ) :
     triggerEvents ρ es t s =
-      signalRound ρ (es.foldl (fun s e => processEvent ρ e s)
-        { s with actions := s.actions.map (fun _ => none), zeroedA := false, zeroedB := false,
-                 g := { s.g with now := t } }) := rfl
+      signalRound ρ (es.foldl (fun s e => processEvent ρ e s) (s.callStart t)) := rfl
 
 /-- Stated semantics, batch level: a batch is the left fold of its events. -/
 theorem C05_order_batch (e : TEvent) (es : List TEvent) (s : Fw σ) :
